@@ -174,6 +174,23 @@ func init() {
 				}
 				tag += "+httpversion"
 			}
+			if r.chance(1, 6) {
+				// media types are case-insensitive for the client, but what is forwarded must be what was sent
+				for k := range req.Headers {
+					if req.Headers[k][0] == "Content-Type" && req.Headers[k][1] != "" {
+						v := req.Headers[k][1]
+						mixed := strings.ToUpper(v[:1]) + v[1:]
+						if j := strings.Index(mixed, "/"); j >= 0 && j+2 <= len(mixed) {
+							mixed = mixed[:j+1] + strings.ToUpper(mixed[j+1:j+2]) + mixed[j+2:]
+						}
+						req.Headers[k][1] = mixed + pick(r, []string{"", "; charset=UTF-8"})
+						tag += "+ctcase"
+						// with another spelling the request may be another protocol's (prefixes are matched
+						// literally): the expectation that rested on the original classification is void
+						expectReject = false
+					}
+				}
+			}
 			var body []byte
 			for _, ch := range req.Chunks {
 				body = append(body, ch...)
